@@ -19,14 +19,17 @@
 (***************************************************************************)
 EXTENDS WireOps
 
-(* V (last parameter of ImplReq etc.) selects the variant of the design:     *)
-(*   "code"           as the pinned tree does it                             *)
-(*   "fixed"          repaired: ExportIndication drops the instance path     *)
-(*                    (as CreateInstance does); SCOPE never gets an ANY      *)
-(*                    attribute; real-typed keys are numbers in CIMObject    *)
+(* V (last parameter of ImplReq etc.) is a set of flags selecting the        *)
+(* variant of the design:                                                    *)
+(*   {}              the repaired design                                     *)
+(*   "export_path"   ExportIndication passes the instance on with its path   *)
+(*                   (VALUE.NAMEDINSTANCE ... inside EXPPARAMVALUE)          *)
+(*   "real_repr"     to_wbem_uri() renders Real32/Real64 keys with repr()    *)
+(*   "scope_any"     SCOPE gets an ANY attribute for an explicit ANY: False  *)
+(*                   (these three are how the originally pinned tree does it)*)
 (*   "keephost", "hdr_before_default", "minst_order": realistic regressions  *)
-(*                    (on top of "fixed")                                    *)
-Variants == {"code", "fixed", "keephost", "hdr_before_default", "minst_order"}
+Pinned == {"export_path", "real_repr", "scope_any"}
+Flags == Pinned \cup {"keephost", "hdr_before_default", "minst_order"}
 
 Arg(f, kb, pr, x) == [f |-> f, kb |-> kb, pr |-> pr, x |-> x]
 A0(f) == Arg(f, <<>>, <<>>, <<>>)
@@ -272,8 +275,8 @@ ClassTree(a) ==
 (* x flags: type "t_string"|"t_boolean"|"t_uint32"; "arr"; "size"; value    *)
 (* "vs"|"va"; scopes "sc1"|"sc2"|"scany"|"scmof"; flavors "fl_t"|"fl_f"|     *)
 (* "fl_ov".  "scmof": the scopes dictionary as the MOF compiler builds it    *)
-(* (all seven scopes plus ANY: False); the pinned tree writes the ANY entry  *)
-(* as an attribute of SCOPE.                                                 *)
+(* (all seven scopes plus ANY: False); with flag "scope_any" the ANY entry   *)
+(* is written as an attribute of SCOPE (pinned tree; repaired since).        *)
 QualDeclTree(a, Variant) ==
   LET ty == IF Has(a.x, "t_boolean") THEN "boolean"
             ELSE IF Has(a.x, "t_uint32") THEN "uint32" ELSE "string"
@@ -297,7 +300,7 @@ QualDeclTree(a, Variant) ==
                                  <<"REFERENCE", "true">>>>, <<>>, "none")>>
             ELSE IF Has(a.x, "scmof")
             THEN <<El("SCOPE",
-                      (IF Variant = "code" THEN <<<<"ANY", "false">>>> ELSE <<>>)
+                      (IF "scope_any" \in Variant THEN <<<<"ANY", "false">>>> ELSE <<>>)
                         \o <<<<"ASSOCIATION", "false">>, <<"CLASS", "true">>,
                               <<"INDICATION", "false">>, <<"METHOD", "false">>,
                               <<"PARAMETER", "false">>, <<"PROPERTY", "true">>,
@@ -594,17 +597,17 @@ MethodReq(c, Variant) ==
       (* _methodcall: copy, default namespace filled in, host removed *)
       leaf == IF IsInstForm(tgt.f) THEN InstNameTree("tcls", tgt.kb)
               ELSE ClassNameTree("tcls")
-      lform == IF Variant = "keephost" /\ tgt.f \in {"cn_ns_h", "in_ns_h"}
+      lform == IF "keephost" \in Variant /\ tgt.f \in {"cn_ns_h", "in_ns_h"}
                THEN (IF IsInstForm(tgt.f) THEN "INSTANCEPATH" ELSE "CLASSPATH")
                ELSE (IF IsInstForm(tgt.f) THEN "LOCALINSTANCEPATH"
                      ELSE "LOCALCLASSPATH")
       nsel == IF lform \in {"INSTANCEPATH", "CLASSPATH"} THEN NsPathH(ns)
               ELSE NsPath(ns)
-      hdrns == IF Variant = "hdr_before_default" /\ ~HasNs(tgt.f)
+      hdrns == IF "hdr_before_default" \in Variant /\ ~HasNs(tgt.f)
                THEN <<>> ELSE ns
       (* pinned tree: to_wbem_uri() renders a Real32/Real64 key with repr(), *)
       (* i.e. "Real32(cimtype='real32', 1.5)": not a key value any more      *)
-      badreal == /\ Variant = "code" /\ IsInstForm(tgt.f)
+      badreal == /\ "real_repr" \in Variant /\ IsInstForm(tgt.f)
                  /\ \E i \in DOMAIN tgt.kb : tgt.kb[i] = "r32"
   IN
   [emit |-> TRUE,
@@ -621,12 +624,12 @@ MethodReq(c, Variant) ==
                      THEN [i \in DOMAIN tgt.kb |-> KeyNames[i]] ELSE <<>>]]
 
 (* ---- ExportIndication ------------------------------------------------------------------- *)
-(* Variant "code": tocimxml(NewIndication) honours the instance's path      *)
+(* flag "export_path": tocimxml(NewIndication) honours the instance's path  *)
 (* (what the pinned tree does); otherwise the path is dropped as in         *)
 (* CreateInstance.                                                           *)
 ExportReq(c, Variant) ==
   LET a == c.args[1]
-      child == IF Variant = "code" THEN InstanceWithPath(a)
+      child == IF "export_path" \in Variant THEN InstanceWithPath(a)
                ELSE InstanceTree(a) IN
   [emit |-> TRUE,
    tree |-> Envelope(El("SIMPLEEXPREQ", <<>>,
@@ -640,7 +643,7 @@ ExportReq(c, Variant) ==
 ImplReq(c, Variant) ==
   LET o == OpTable[c.op] IN
   CASE o.kind = "i" ->
-         IF Variant = "minst_order" /\ c.op = "ModifyInstance"
+         IF "minst_order" \in Variant /\ c.op = "ModifyInstance"
          THEN \* regression: INSTANCE before INSTANCENAME
               LET r == IMethodReq(c.op, TargetNs(c), o.params, c.args, Variant)
                   call == r.tree.c[1].c[1].c[1]
